@@ -105,6 +105,7 @@ class Inference(object):
 
         elif isinstance(self.model, DynamicBayesianNetwork):
             self.start_bayesian_model = BayesianNetwork(self.model.get_intra_edges(0))
+            self.start_bayesian_model.add_nodes_from(self.model.get_slice_nodes(0))
             self.start_bayesian_model.add_cpds(*self.model.get_cpds(time_slice=0))
             cpd_inter = [
                 self.model.get_cpds(node) for node in self.model.get_interface_nodes(1)
@@ -113,6 +114,7 @@ class Inference(object):
             self.one_and_half_model = BayesianNetwork(
                 self.model.get_inter_edges() + self.model.get_intra_edges(1)
             )
+            self.one_and_half_model.add_nodes_from(self.model.get_slice_nodes(1))
             self.one_and_half_model.add_cpds(
                 *(self.model.get_cpds(time_slice=1) + cpd_inter)
             )
